@@ -44,6 +44,9 @@ SEEDS = [
     "query Other { num } query WithN($n: Int) { ...FN color } fragment FN on Query @dq(n: $n, t: \"x\") { num }",
     "fragment FN on Query @dq(n: $n) { num } query WithN($n: Int) { ...FN }",
     "query A($n: Int) { ...FN } query B($t: Tag) { ...FT } fragment FT on Query @dq(t: $t) { color } fragment FN on Query @dq(n: $n) { num }",
+    # a variable used on a field whose sub-selection ends with a field that has an argument of the same name and another type
+    "mutation M($s: Int) { set(s: $s) { id echo(s: \"x\") } }",
+    "mutation M($s: Int, $x: String) { ...MS } fragment MS on Mutation { set(s: $s, v: $x) { ... on A { name echo(x: 1, s: \"y\") } } }",
 ]
 
 
